@@ -1222,4 +1222,28 @@ theorem google_param_reported_vs_written (hdr : Nat) (es : List Entry) (k : Nat)
   rw [converted_param_offset]
   omega
 
+/-! ### `obj.__doc__ = "…"` -/
+
+/-- the assignment leaves the line base alone: problems of the assigned text are located from the
+definition's docstring literal, or from the `def` line when there was none -/
+theorem doc_assignment_keeps_old_base (o : Obj) (sec : Sec) (off : Int) :
+    reportAfterDocAssignment o sec off = report o sec off := rfl
+
+/-- Full statement wanted: the reported line is `extractLinenum sl v + off`, the line inside the
+assigned literal (on line `sl`, value `v`).  It holds exactly when the old base happens to equal the
+new literal's first text line — which cannot be, the assignment stands below the definition. -/
+theorem doc_assignment_line_partial (o : Obj) (sec : Sec) (off : Int) (sl : Nat) (v : List Char)
+    (hs : sec = .docstring ∨ sec = .xref) (h0 : pyOr (some o.docstringLineno) o.linenumber ≠ 0) :
+    reportAfterDocAssignment o sec off = .num ((extractLinenum sl v : Nat) + off) ↔
+      pyOr (some o.docstringLineno) o.linenumber = (extractLinenum sl v : Nat) := by
+  simp only [reportAfterDocAssignment, Obj.assignDoc, report, hs, if_true, h0, ne_eq, not_false_eq_true,
+    Line.num.injEq]
+  omega
+
+/-- `def f` with a docstring from line 3; `f.__doc__ = """⏎    New doc.⏎⏎    Text L{zq1}.⏎    """` on
+line 12: `zq1` (physical line 15, offset 2) is reported on line 5. -/
+theorem doc_assignment_counterexample :
+    let v := "\n    New doc.\n\n    Text L{zq1}.\n    ".toList
+    reportAfterDocAssignment ⟨3, 1, false⟩ .xref 2 = .num 5 ∧ extractLinenum 12 v + 2 = 15 := by decide
+
 end Lineno
